@@ -74,6 +74,9 @@ func (f *Frame) execInstr(ins ssa.Instruction, st *State) {
 			return
 		}
 		f.nopanic(st, "nil-deref", x.Pos(), not(eq(p.T, intLit(0))), "pointer is not nil at field access ."+fld.Name())
+		if u.eng.LockMode {
+			f.guardCheck(x, stT, fld.Name(), st)
+		}
 		if !isTime(ft) && !isOpaqueArr(ft) {
 			switch ft.Underlying().(type) {
 			case *types.Struct, *types.Array:
